@@ -14,7 +14,7 @@ EXPLANATION = (
     'size limit) cells under the size model 1 + 40 per pair, emits all heads when unlimited (authors sharing a timestamp '
     'are all kept) and otherwise the longest newest-first prefix that fits; (R4) document removal erases the heads (shared '
     'with C16.R1); (R5) the heads rebuilt by migration 001 and maintained by entry_put, both evaluated over an abstract '
-    'records table, are the greatest (timestamp, key) per (namespace, author) with ties resolved alike (shared with C18.R2). (R6) the store actor forwards HasNewsForUs one to one (the store-actor handler evaluated with the fields of the request as named tokens and gates / store / replica calls answered by an oracle, each step also failing in turn: the own fields of the request reach the core function in order on the addressed document, nothing is carried out after a failed step, the reply is the result of that function; the SyncHandle method evaluated: one request of its own kind, addressed to its namespace argument, each field one of its own parameters, the reply of the actor returned). NOT decided: exact bytes kept under a limit.'
+    'records table, are the greatest (timestamp, key) per (namespace, author) with ties resolved alike (shared with C18.R2). (R6) the store actor forwards HasNewsForUs one to one (the store-actor handler evaluated with the fields of the request as named tokens and gates / store / replica calls answered by an oracle, each step also failing in turn: the own fields of the request reach the core function in order on the addressed document, nothing is carried out after a failed step, the reply is the result of that function; the SyncHandle method evaluated: one request of its own kind, addressed to its namespace argument, each field one of its own parameters, the reply of the actor returned). (R7) the live actor handler of gossiped head reports evaluated on (syncing, decodable, verdict of has_news_for_us): one request to the sender of the report, for the document it names, exactly when the store flags the decoded heads as news. NOT decided: exact bytes kept under a limit.'
 )
 ASSUMPTIONS = ["redb tables are identified by their key/value types", "postcard size computation trusted"]
 
@@ -358,6 +358,14 @@ def r6(ctx):
     actorfw.claim(ctx, "C13.R6", handlers=("HasNewsForUs",), clients=("has_news_for_us",), floor=3)
 
 
+def r7(ctx):
+    """what is done with the verdict: the live actor asks the sender of a head report for a sync exactly when the store flagged
+    the report as news"""
+    from . import livefw
+    livefw.check_sync_report(ctx, "C13.R7")
+    ctx.floor("C13.R7", 5)
+
+
 def run(ctx):
     ctx.run_rule("C13.R1", r1)
     ctx.run_rule("C13.R2", r2)
@@ -365,3 +373,4 @@ def run(ctx):
     ctx.run_rule("C13.R4", r4)
     ctx.run_rule("C13.R5", r5)
     ctx.run_rule("C13.R6", r6)
+    ctx.run_rule("C13.R7", r7)
